@@ -6,11 +6,17 @@ import (
 	"errors"
 	"fmt"
 	"io"
+
+	"semtest/ext"
 )
 
 var counter int
 
 type pair struct{ a, b int }
+type pairP struct {
+	a int
+	p *int
+}
 
 func okStore(b []byte, i int, v byte) int {
 	b[i] = v
@@ -18,29 +24,29 @@ func okStore(b []byte, i int, v byte) int {
 }
 
 func BadOrder(b []byte) int { return int(b[0]) + okStore(b, 0, 1) }
-func BadLoop(b []byte) int {
+func BadLoop(k int) int {
 	n := 0
-	for _, x := range b {
-		n += int(x)
+	for i := range k {
+		n += i
 	}
 	return n
 }
-func BadAlias(b []byte) byte        { s := b[1:]; s[0] = 1; return b[1] }
-func BadSliceOfMut(b []byte) []byte { b[0] = 1; return b[1:] }
-func BadMapLen(m map[int]int) int   { return len(m) }
-func BadFloat(n int) uint64         { return uint64(float64(n) / 0.75) }
-func BadShift(a int, k int) int     { return a << k }
-func BadDefer(a int) (r int)        { defer func() { r++ }(); return a }
-func BadErrCompare(err error) bool  { return err == io.EOF }
-func BadClosure(a int) int          { f := func() int { return a }; return f() }
-func BadPointer(p *pair) int        { return p.a }
-func BadPtrValue(p *int) *int       { return p }
-func BadUnknownErr() error          { return errors.New("x") }
-func BadGlobalWrite(a int) int      { counter = a; return a }
-func BadAppendMut(b []byte) []byte  { b[0] = 1; return append(b, 2) }
-func BadStruct(p pair) int          { return p.a }
-func BadSlice3(b []byte) []byte     { return b[0:1:2] }
-func BadAssignMut(b []byte) int     { b[0] = 1; b = b[1:]; return len(b) }
+func BadAlias(b []byte) byte         { s := b[1:]; s[0] = 1; return b[1] }
+func BadSliceOfMut(b []byte) []byte  { b[0] = 1; return b[1:] }
+func BadMapDelete(m map[int]int) int { delete(m, 1); return len(m) }
+func BadFloat(n int) uint64          { return uint64(float64(n) / 0.75) }
+func BadShift(a int, k int) int      { return a << k }
+func BadDefer(a int) (r int)         { defer func() { r++ }(); return a }
+func BadErrCompare(err error) bool   { return err == io.EOF }
+func BadClosure(a int) int           { f := func() int { return a }; return f() }
+func BadPointer(p *pair) int         { return p.a }
+func BadPtrValue(p *int) *int        { return p }
+func BadUnknownErr() error           { return errors.New("x") }
+func BadGlobalWrite(a int) int       { counter = a; return a }
+func BadAppendMut(b []byte) []byte   { b[0] = 1; return append(b, 2) }
+func BadStruct(p pairP) int          { return p.a }
+func BadSlice3(b []byte) []byte      { return b[0:1:2] }
+func BadAssignMut(b []byte) int      { b[0] = 1; b = b[1:]; return len(b) }
 func BadGoto(a int) int {
 	i := 0
 loop:
@@ -81,12 +87,9 @@ func BadMapAlias(m map[int]int) int {
 	return m[1]
 }
 func BadMapReturn(m map[int]int) map[int]int { return m }
-func BadMapOk(m map[int]int) int {
-	v, ok := m[1]
-	if ok {
-		return v
-	}
-	return -1
+func BadTypeAssert(g getter) bool {
+	_, ok := g.(io.Reader)
+	return ok
 }
 func okBump(p *int) int { *p++; return *p }
 
@@ -153,3 +156,151 @@ func BadRecvCall(a int) int {
 	return r.a
 }
 func BadRecvValue(p *rec2) *rec2 { return p }
+
+// phase 3
+func okStore2(b []byte, c []byte) int { b[0] = c[0]; return 1 }
+func BadSubSliceAlias(b []byte) int   { return okStore2(b[1:], b[0:2]) }
+func BadSubSliceHigh(b []byte) int    { return okStore(b[1:3], 0, 1) }
+func BadSwitchMulti(a int) int {
+	switch {
+	case a > 3, a < 0:
+		return 1
+	}
+	return 0
+}
+func (p *rec2) okBumpR(a int) int { p.a += a; return p.a }
+func (p *rec2) BadRecvOrder() int { return p.a + p.okBumpR(1) }
+func BadOtherRecv(p *rec2, a int) int {
+	return p.okBumpR(a)
+}
+
+// map range statements and nil interface values (phase 3)
+func BadRangeInLoop(m map[int]int, n int) int {
+	s := 0
+	for i := 0; i < n; i++ {
+		for k := range m {
+			s += k
+		}
+	}
+	return s
+}
+func BadRangeAssign(m map[int]int) int {
+	for k := range m {
+		m[k+1] = 0
+	}
+	return len(m)
+}
+func BadRangeNoDefine(m map[int]int) int {
+	k := 0
+	for k = range m {
+	}
+	return k
+}
+func okRange(m map[int]int) int {
+	s := 0
+	for k := range m {
+		s += k
+	}
+	return s
+}
+func BadRangeCallInLoop(m map[int]int, n int) int {
+	s := 0
+	for i := 0; i < n; i++ {
+		s += okRange(m)
+	}
+	return s
+}
+func okUse(g getter) int { b, _ := g.Get(); return len(b) }
+func BadNilIface() int   { return okUse(nil) }
+func BadRangeString(s string) int {
+	n := 0
+	for range s {
+		n++
+	}
+	return n
+}
+
+// windows, struct parameters, range over []byte (phase 3)
+type arena interface{ Alloc(n int) ([]byte, error) }
+
+func BadRegionRead(a arena) byte {
+	x, _ := a.Alloc(2)
+	return x[0]
+}
+func BadRegionPass(a arena) int {
+	x, _ := a.Alloc(2)
+	return okStore(x, 0, 1)
+}
+func BadRegionAppend(a arena) int {
+	x, _ := a.Alloc(2)
+	y := append(x, 1)
+	return len(y)
+}
+func BadRegionMix(a arena, b []byte) int {
+	x, _ := a.Alloc(2)
+	x = b
+	return len(x)
+}
+func okPair(p pair) int      { return p.a + p.b }
+func BadStructArg(a int) int { var p pair; p.a = a; return okPair(p) }
+func BadRangeMutBytes(b []byte) int {
+	for i := range b {
+		b[i] = 0
+	}
+	return len(b)
+}
+
+type cfg struct{ m map[int]int }
+
+func BadStructParamMapStore(c cfg) int { c.m[1] = 2; return 0 }
+
+// uninitialised memory and mutating methods (phase 3)
+type codec interface{ WriteTo(b []byte, w getter) int }
+
+func BadTwoDirty(n int) int {
+	a := ext.Dirty(n, n)
+	b := ext.Dirty(n, n)
+	return len(a) + len(b)
+}
+func BadDirtAlias(n int) byte {
+	a := ext.Dirty(n, n)
+	c := a
+	c[0] = 1
+	return a[0]
+}
+func BadDirtLoop(n int) int {
+	s := 0
+	for i := 0; i < n; i++ {
+		a := ext.Dirty(i, i)
+		s += len(a)
+	}
+	return s
+}
+func BadIfaceArg(c codec, g getter, b []byte) int { return c.WriteTo(b, g) }
+
+// read-only views (phase 3)
+type ent struct {
+	off int
+	v   int
+}
+type table struct {
+	items []ent
+	idx   []int32
+	seed  ext.Seed
+}
+
+func (m *table) BadViewStore() int {
+	e := &m.items[0]
+	e.off = 1
+	return e.off
+}
+func (m *table) BadSliceStore() int {
+	m.idx[0] = 1
+	return len(m.idx)
+}
+func (m *table) BadElemWhole() int {
+	x := m.items[0]
+	return x.v
+}
+func (m *table) BadOpaqueField() uint64 { return m.seed.K }
+func BadKeyedArg(s ext.Seed) uint64     { return ext.Keyed(s, "x") }
